@@ -53,8 +53,19 @@ def generate(repo, g):
     loops = [n for n in top if isinstance(n, ast.For) and _is(n.iter, 'funcdef.get_params()') and _is(n.target, 'param')]
     if len(loops) != 2:
         raise TieBroken(W + ': expected two `for param in funcdef.get_params()` loops, found %d' % len(loops))
-    if [u(x) for x in loops[0].body] != ['param_dict[param.name.value] = param']:
+    # param_dict: only normal parameters (`if not param.star_count:`); the source before the repair put
+    # the *args / **kwargs parameters in as well
+    SETPD = 'param_dict[param.name.value] = param'
+    pd = loops[0].body
+    if [u(x) for x in pd] == [SETPD]:
+        star_names = True
+    elif len(pd) == 1 and isinstance(pd[0], ast.If) and _is(pd[0].test, 'not param.star_count') and \
+            [u(x) for x in pd[0].body] == [SETPD] and not pd[0].orelse:
+        star_names = False
+    else:
         raise TieBroken(W + ': param_dict loop', u(loops[0]))
+    g.define('starNamesInParamDict', 'Bool', lean_bool(star_names),
+             src + ' (`for param in funcdef.get_params(): if not param.star_count: ' + SETPD + '`; true = without the `if`)')
     loop = loops[1]
     body = loop.body
     # statement kinds of the loop body: Assign(is_default), Assign(next), While/If, Try, If chain, Expr(append), If
